@@ -8,7 +8,7 @@ import ctl as ctlmod
 import scratch as sc
 
 ASSUME = ["select! start indices are covered through the listed seeds (an enumerated, not provably complete, set); the engine reports how many scripts' stored bytes differed between seeds",
-          "the two compressor OS threads run free; each stream's requests are FIFO on one channel and files are not shared",
+          "in the in-process parts and the end-to-end slice the two compressor OS threads run free (each stream's requests are FIFO on one channel and files are not shared); in the ordering scenarios every iteration of their loops is released by the controller",
           "a failed shutdown send (C06's subject) is not judged here"]
 
 # ------------------------------------------------------------------------------------------ orderings
